@@ -197,7 +197,7 @@ def canon_graph(g, rn: Optional[Renamer] = None) -> list:
     nd = lambda n: [rn(n.id), n.label.name]
     nodes = [[rn(k)] + nd(n) for k, n in g._nodes.items()]
     edges = [[rn(k), rn(e.id), label_ref(e.label), [nd(n) for n in e.nodes]] for k, e in g._edges.items()]
-    c = [sorted(nodes), sorted(edges, key=json.dumps), [nd(n) for n in g._ext],
+    c = [sorted(nodes), sorted(edges, key=lambda x: x[0]), [nd(n) for n in g._ext],
          sorted([k, v.name] for k, v in g._node_labels.items()),
          sorted([k, label_ref(v)] for k, v in g._edge_labels.items())]
     if isinstance(g, FactorGraph):
@@ -271,8 +271,7 @@ def wf_interp(x) -> List[str]:
     bad = []
     for name, fac in x.factors.items():
         if name not in x._edge_labels:
-            bad.append(f"interp: factor bound to unknown label {name!r}")
-            continue
+            continue                      # covered by the label-table clauses of copy(); not part of the property's invariant
         el = x._edge_labels[name]
         if el.is_nonterminal:
             bad.append(f"interp: factor bound to nonterminal {name!r}")
@@ -284,9 +283,6 @@ def wf_interp(x) -> List[str]:
                 bad.append(f"interp: factor of {name!r}: node label {nl.name} has no domain")
             elif not (x.domains[nl.name] == d):
                 bad.append(f"interp: factor of {name!r}: domain differs from the domain of {nl.name}")
-    for name in x.domains:
-        if name not in x._node_labels:
-            bad.append(f"interp: domain bound to unknown node label {name!r}")
     return bad
 
 
@@ -328,6 +324,27 @@ def wf_hrg(h, rhs_tables: bool = True) -> List[str]:
     if isinstance(h, FGG):
         bad += wf_interp(h)
     return bad
+
+
+ID_FEATS = ("same-id-other-label", "-one-id")
+
+
+def make_key(cls_name, op, clause, kp, feats) -> str:
+    """Stable key naming the failing call pattern: class.op : clause [: sub-case] : features of the call that matter."""
+    if clause.startswith("wf.attachment") or clause.startswith("wf.ext") or clause.startswith("wf.rhs.attachment") or clause.startswith("wf.rhs.ext"):
+        fs = [f for f in feats if f.endswith(ID_FEATS)]
+    elif clause == "on_raise":
+        fs = [f for f in feats if not f.endswith(ID_FEATS) and not f.endswith("-absent")] or feats
+    elif clause.startswith(("copy", "eq")):
+        fs = []
+    else:
+        fs = feats
+    key = f"{cls_name}.{op}:{clause}"
+    if clause.startswith(("copy", "eq")):
+        key += ":" + kp
+    if fs:
+        key += ":" + "+".join(fs)
+    return key
 
 
 def clause_of(msg: str) -> str:
@@ -550,7 +567,7 @@ def expand_graph_state(history, calls, cls_name="Graph"):
             feats = (fg_features if cls_name == "FactorGraph" else call_features)(ref, call)
             seen = set()
             for clause, kp, detail in probs:
-                key = f"{cls_name}.{call[0]}:{clause}:{kp}" + (":" + "+".join(feats) if feats else "")
+                key = make_key(cls_name, call[0], clause, kp, feats)
                 if key in seen:
                     continue
                 seen.add(key)
@@ -563,22 +580,45 @@ def expand_graph_state(history, calls, cls_name="Graph"):
     return len(calls), raised, succ, fails
 
 
+def _cap(out, fails, kc, idx):
+    """Keep the first PER_KEY_CAP records per key (in BFS order inside the chunk) and count the rest."""
+    for j, f in enumerate(fails):
+        k = f["key"]
+        kc[k] = kc.get(k, 0) + 1
+        if kc[k] <= PER_KEY_CAP:
+            f["order"] = (f["depth"], idx, j)
+            f["count"] = 1
+            out.append(f)
+        else:
+            for g in reversed(out):
+                if g["key"] == k:
+                    g["count"] += 1
+                    break
+
+
+def _merge(fails):
+    """BFS order (depth, index of the state in its frontier, call index); total count per key."""
+    fails.sort(key=lambda f: f["order"])
+    return fails
+
+
 def _graph_worker(args):
     torch.set_num_threads(1)
     histories, calls, cls_name, last = args
     out_fail, out_succ = [], []
     n = r = 0
+    kc: Dict[str, int] = {}
     with warnings.catch_warnings():
         warnings.simplefilter("ignore")
-        for h in histories:
+        for idx, h in histories:
             t, rr, succ, fails = expand_graph_state(h, calls, cls_name)
             n += t; r += rr
-            out_fail += fails
+            _cap(out_fail, fails, kc, idx)
             if last:
                 out_succ += [hashlib.blake2b(s.encode(), digest_size=8).digest() for s, _ in succ]
             else:
                 out_succ += [(s, h + [c]) for s, c in succ]
-    return n, r, out_succ, out_fail
+    return n, r, out_succ, out_fail, kc
 
 
 def bfs_graph(calls, depth, jobs, cls_name="Graph", init_history=None):
@@ -588,6 +628,7 @@ def bfs_graph(calls, depth, jobs, cls_name="Graph", init_history=None):
     seen = {json.dumps(canon_graph(replay_graph(start, cls)), sort_keys=True)}
     frontier = [start]
     fails: List[dict] = []
+    keycount: Dict[str, int] = {}
     transitions = raised = 0
     per_depth = []
     last_hashes = set()
@@ -596,13 +637,16 @@ def bfs_graph(calls, depth, jobs, cls_name="Graph", init_history=None):
         for d in range(1, depth + 1):
             last = (d == depth)
             nchunks = max(1, min(len(frontier), jobs * 8))
-            chunks = [frontier[i::nchunks] for i in range(nchunks)]
+            fr = list(enumerate(frontier))
+            chunks = [fr[i::nchunks] for i in range(nchunks)]
             args = [(ch, calls, cls_name, last) for ch in chunks]
             results = pool.map(_graph_worker, args) if (pool and len(frontier) > 4) else [_graph_worker(a) for a in args]
             new = []
-            for n, r, succ, fl in results:
+            for n, r, succ, fl, kc in results:
                 transitions += n; raised += r
                 fails += fl
+                for k, v in kc.items():
+                    keycount[k] = keycount.get(k, 0) + v
                 if last:
                     last_hashes.update(succ)
                 else:
@@ -617,9 +661,10 @@ def bfs_graph(calls, depth, jobs, cls_name="Graph", init_history=None):
     finally:
         if pool:
             pool.close(); pool.join()
-    fails.sort(key=lambda f: (f["depth"], f["key"], json.dumps(f["case"])))
+    _merge(fails)
     return {"transitions": transitions, "raised": raised, "distinct_wf_states_expanded": len(seen),
-            "distinct_states_at_last_depth": len(last_hashes), "per_depth": per_depth}, fails
+            "distinct_states_at_last_depth": len(last_hashes), "per_depth": per_depth,
+            "failing_transitions_by_key": dict(sorted(keycount.items()))}, fails
 
 
 # ----------------------------------------------------------------------------------------
@@ -888,7 +933,7 @@ def expand_hrg_state(history, calls):
             feats = hrg_features(ref, call)
             seen = set()
             for clause, kp, detail in probs:
-                key = f"{cls_name}.{call[0]}:{clause}:{kp}" + (":" + "+".join(feats) if feats else "")
+                key = make_key(cls_name, call[0], clause, kp, feats)
                 if key in seen:
                     continue
                 seen.add(key)
@@ -906,17 +951,18 @@ def _hrg_worker(args):
     histories, calls, last = args
     out_fail, out_succ = [], []
     n = r = 0
+    kc: Dict[str, int] = {}
     with warnings.catch_warnings():
         warnings.simplefilter("ignore")
-        for h in histories:
+        for idx, h in histories:
             t, rr, succ, fails = expand_hrg_state(h, calls)
             n += t; r += rr
-            out_fail += fails
+            _cap(out_fail, fails, kc, idx)
             if last:
                 out_succ += [hashlib.blake2b(s.encode(), digest_size=8).digest() for s, _ in succ]
             else:
                 out_succ += [(s, h + [c]) for s, c in succ]
-    return n, r, out_succ, out_fail
+    return n, r, out_succ, out_fail, kc
 
 
 def bfs_hrg(ctor, calls, depth, jobs):
@@ -924,6 +970,7 @@ def bfs_hrg(ctor, calls, depth, jobs):
     seen = {json.dumps(canon_hrg(replay_hrg(start)), sort_keys=True)}
     frontier = [start]
     fails: List[dict] = []
+    keycount: Dict[str, int] = {}
     transitions = raised = 0
     last_hashes = set()
     pool = multiprocessing.get_context("fork").Pool(jobs) if jobs > 1 else None
@@ -931,13 +978,16 @@ def bfs_hrg(ctor, calls, depth, jobs):
         for d in range(1, depth + 1):
             last = (d == depth)
             nchunks = max(1, min(len(frontier), jobs * 8))
-            chunks = [frontier[i::nchunks] for i in range(nchunks)]
+            fr = list(enumerate(frontier))
+            chunks = [fr[i::nchunks] for i in range(nchunks)]
             args = [(ch, calls, last) for ch in chunks]
             results = pool.map(_hrg_worker, args) if (pool and len(frontier) > 4) else [_hrg_worker(a) for a in args]
             new = []
-            for n, r, succ, fl in results:
+            for n, r, succ, fl, kc in results:
                 transitions += n; raised += r
                 fails += fl
+                for k, v in kc.items():
+                    keycount[k] = keycount.get(k, 0) + v
                 if last:
                     last_hashes.update(succ)
                 else:
@@ -951,9 +1001,10 @@ def bfs_hrg(ctor, calls, depth, jobs):
     finally:
         if pool:
             pool.close(); pool.join()
-    fails.sort(key=lambda f: (f["depth"], f["key"], json.dumps(f["case"])))
+    _merge(fails)
     return {"transitions": transitions, "raised": raised, "distinct_wf_states_expanded": len(seen),
-            "distinct_states_at_last_depth": len(last_hashes)}, fails
+            "distinct_states_at_last_depth": len(last_hashes),
+            "failing_transitions_by_key": dict(sorted(keycount.items()))}, fails
 
 
 # ----------------------------------------------------------------------------------------
@@ -1113,10 +1164,17 @@ def fg_features(g, call):
 # ----------------------------------------------------------------------------------------
 # driver
 # ----------------------------------------------------------------------------------------
-def _to_failures(rep: Report, fails: List[dict], counts: Dict[str, int]):
+def _to_failures(rep: Report, fails: List[dict], counts: Dict[str, int], keycount: Optional[Dict[str, int]] = None):
+    kept: Dict[str, int] = {}
+    for k, v in (keycount or {}).items():
+        counts[k] = counts.get(k, 0) + v
     for f in fails:
-        counts[f["key"]] = counts.get(f["key"], 0) + 1
-        if counts[f["key"]] > PER_KEY_CAP:
+        if keycount is None:
+            counts[f["key"]] = counts.get(f["key"], 0) + 1
+        kept[f["key"]] = kept.get(f["key"], 0) + 1
+        if kept[f["key"]] > PER_KEY_CAP or any(x.key == f["key"] for x in rep.failures[:-PER_KEY_CAP or None] if False):
+            continue
+        if sum(1 for x in rep.failures if x.key == f["key"]) >= PER_KEY_CAP:
             continue
         rep.failures.append(Failure(obligation=f["obligation"], what=f["what"], key=f["key"], detail=f["detail"][:1500],
                                     replay={"module": MODULE, "func": "replay_case", "case": f["case"]}))
@@ -1139,7 +1197,7 @@ def run_bounded(ctx: Ctx) -> Report:
             U = universe(uname)
             stats, fails = bfs_graph(U.calls, depth, ctx.jobs)
             timing[f"Graph/{uname}"] = round(time.time() - t0, 1)
-            _to_failures(rep, fails, counts)
+            _to_failures(rep, fails, counts, stats.pop("failing_transitions_by_key"))
             rep.bounded.append(Bounded(
                 function=f"Graph call histories, universe '{uname}'",
                 bound=f"all call sequences of length <= {depth} over {len(U.calls)} calls/state "
@@ -1150,28 +1208,28 @@ def run_bounded(ctx: Ctx) -> Report:
                      "dict order ignored); distinct = distinct canonical well-formed states reached (expanded ones + those at the last depth); "
                      "ill-formed states are reported and not expanded",
                 samples=[{"kind": "Graph", "history": [c]} for c in (U.calls[0], U.calls[len(U.calls) // 2], U.calls[-1])],
-                exhaustive=True, extra=dict(stats, failing_transitions=len(fails), wall_s=timing[f"Graph/{uname}"])))
+                exhaustive=True, extra=dict(stats, wall_s=timing[f"Graph/{uname}"])))
         # ---- FactorGraph ------------------------------------------------------------
         t0 = time.time()
         calls = factorgraph_calls()
         depth = 3 if not ctx.thorough else 4
         stats, fails = bfs_graph(calls, depth, ctx.jobs, cls_name="FactorGraph")
         timing["FactorGraph"] = round(time.time() - t0, 1)
-        _to_failures(rep, fails, counts)
+        _to_failures(rep, fails, counts, stats.pop("failing_transitions_by_key"))
         rep.bounded.append(Bounded(
             function="FactorGraph call histories (graph calls + add_domain/add_factor/new_finite_*/copy)",
             bound=f"all call sequences of length <= {depth} over {len(calls)} calls/state",
             cases=stats["transitions"], distinct_nontrivial=stats["distinct_wf_states_expanded"] + stats["distinct_states_at_last_depth"],
             rule="as for Graph; the state additionally contains domains and factors (dense weights)",
             samples=[{"kind": "FactorGraph", "history": [c]} for c in calls[:2]], exhaustive=True,
-            extra=dict(stats, failing_transitions=len(fails), wall_s=timing["FactorGraph"])))
+            extra=dict(stats, wall_s=timing["FactorGraph"])))
         # ---- HRG / FGG --------------------------------------------------------------
         for cls, depth in (("HRG", 3 if not ctx.thorough else 4), ("FGG", 3 if not ctx.thorough else 4)):
             t0 = time.time()
             calls = hrg_calls(cls == "FGG")
             stats, fails = bfs_hrg([cls, "str=S"], calls, depth, ctx.jobs)
             timing[cls] = round(time.time() - t0, 1)
-            _to_failures(rep, fails, counts)
+            _to_failures(rep, fails, counts, stats.pop("failing_transitions_by_key"))
             rep.bounded.append(Bounded(
                 function=f"{cls} call histories",
                 bound=f"{cls}('S') followed by all call sequences of length <= {depth} over {len(calls)} calls/state "
@@ -1180,7 +1238,7 @@ def run_bounded(ctx: Ctx) -> Report:
                 rule="breadth-first over (state, call); dedupe by canonical form of (start, label tables, rules in order"
                      + (", domains, factors)" if cls == "FGG" else ")"),
                 samples=[{"kind": cls, "history": [[cls, "str=S"], c]} for c in calls[:2]], exhaustive=True,
-                extra=dict(stats, failing_transitions=len(fails), wall_s=timing[cls])))
+                extra=dict(stats, wall_s=timing[cls])))
         # ---- constructors -----------------------------------------------------------
         n1, f1 = check_constructors()
         n2, f2 = check_element_constructors()
